@@ -284,11 +284,14 @@ Definition apply_all (f : allfn) (b : bytes) : bytes :=
   end.
 
 Inductive linefn :=
-| LWrap (p q : bytes)     (* prefix p / suffix q / foreach l { out "p$(l)q" } *)
+| LWrap (p q : bytes)     (* prefix p / suffix q *)
+| LEach (v p q : bytes)   (* foreach v { out "p$(v)q" }: v is the iteration variable, which
+                             lives in the enclosing function's variable table *)
 | LMatch (p : bytes).     (* match p: keep the lines that contain p *)
 Definition apply_line (f : linefn) (l : bytes) : bytes :=
   match f with
   | LWrap p q => p ++ l ++ q ++ [nl]
+  | LEach _ p q => p ++ l ++ q ++ [nl]
   | LMatch p => if contains p l then l ++ [nl] else []
   end.
 
@@ -348,5 +351,21 @@ Definition lpredict (fuel : nat) (p : lprog) : Outcome (result) :=
 (* at most one stage of every pipeline may write stderr: the domain of the property *)
 Definition single_err_writer (inits : list lstate) : bool :=
   (length (filter (fun s => negb (lquiet s)) inits) <=? 1)%nat.
+(* stages of one pipeline run concurrently and must share nothing but their pipes: two
+   foreach stages of one pipeline must not use the same iteration variable (the variable
+   is function scoped, so they would race on it: known finding C03#1) *)
+Fixpoint each_vars (l : list lspec) : list bytes :=
+  match l with
+  | [] => []
+  | SLines (LEach v _ _) :: l' => v :: each_vars l'
+  | _ :: l' => each_vars l'
+  end.
+Fixpoint nodup_bytes (l : list bytes) : bool :=
+  match l with
+  | [] => true
+  | x :: l' => negb (existsb (bytes_eqb x) l') && nodup_bytes l'
+  end.
+Definition shares_loop_var (p : lprog) : bool :=
+  existsb (fun it => negb (nodup_bytes (each_vars (snd it)))) p.
 Definition lguard (p : lprog) : bool :=
-  forallb (fun it => single_err_writer (map linit (snd it))) p.
+  forallb (fun it => single_err_writer (map linit (snd it))) p && negb (shares_loop_var p).
